@@ -43,6 +43,14 @@ def check(rep, ctx):
                   message=f"`{o['stmt']}` requests {o['size']} bytes: more than the item holds whenever the other operand is larger -- the bytes of "
                           f"the next field, element or message are consumed and discarded", file=o["file"], line=o["line"])
     rep.count(R_OV, 1, instance="scan")
+    R_TD = rep.rule("C10-e-time-reencodable", "the duration writers accept every timedelta their sibling readers can return (analysed on a plain "
+                   "datetime.timedelta, guards evaluated at the extremes)", floor=2)
+    from .wire import time_writer_domain_rows
+    for ok_, c_, stmt_, msg_, file_, line_ in time_writer_domain_rows(ctx):
+        if ok_ is None:
+            rep.limit(f"{c_}: {msg_}")
+            continue
+        rep.check(R_TD, ok_, construct=c_, stmt=stmt_, message=msg_, file=file_, line=line_)
     R_E = rep.rule("C10-e-reencodable", "what a field reader returns is in the format its sibling writer accepts", floor=5000)
     allowed = [exc_class(ctx, r) for r in ALLOWED_ROOTS]
     seen = {}
